@@ -190,11 +190,19 @@ def e2e(case):
             dirs = [(wd - 1.2) % 360.0, (wd - 0.8) % 360.0, (wd - 0.4) % 360.0, wd]
         raw2 = json_copy(raw)
         raw2["met"]["wind_dir"] = dirs
+        cached = case["idx"] % 12 in (0, 9)
+        if cached:   # with the result cache switched on, and run twice: the second series is served from the entries of the first
+            raw2["parallel"] = {"use_cache": True}
         cfg2 = parse_config_dict(raw2)
         with warnings.catch_warnings():
             warnings.simplefilter("ignore")
             with np.errstate(all="ignore"):
                 series = bldfm.run_bldfm_timeseries(cfg2, cfg2.towers[0])
+                if cached:
+                    series = bldfm.run_bldfm_timeseries(cfg2, cfg2.towers[0])
+                    import shutil as _sh
+
+                    _sh.rmtree(".bldfm_cache", ignore_errors=True)
         sweep = (dirs, series)
     # every other case: the same configuration is first run as a concentration (dispersion) field in the same process - a user who
     # looks at the plume and then asks for the footprint
@@ -244,6 +252,11 @@ def e2e(case):
     if sweep is not None:
         for k, (d_k, r_k) in enumerate(zip(*sweep)):
             fk = np.asarray(r_k["flx"], dtype=float)
+            Xk, Yk = np.asarray(r_k["grid"][0]), np.asarray(r_k["grid"][1])
+            if Xk.shape != X.shape or not (np.array_equal(Xk, X) and np.array_equal(Yk, Y)):
+                viol.append({"what": "grid_of_a_series_step_differs_from_the_single_run_grid", "driver": "run_bldfm_timeseries", "step": k,
+                             "shapes": (Xk.shape, X.shape), "case": desc})
+                continue
             fmk = float(fk[disc].max())
             reg = disc & (fk >= 0.25 * fmk)
             if int(reg.sum()) < 12:
